@@ -74,8 +74,14 @@ PROPS = {
                          "RModel.Impl.decode_no_panic", "RModel.Impl.roundtrip_wf", "RModel.BSet.canon_ext"] + F_SERIAL,
             "modules": DEFAULT_MODULES + [FACTS, "RProofs.Properties.C05"],
             "owns": {"ser", "rd", "wrfail", "wrfailall", "rdsplit", "trunc", "wf", "dig", "add", "or", "mkrepr"}},
-    "C06": {"suites": [("spec", 1.0)], "theorems": ["RModel.BSet.canon_ext"] + F_SERIAL, "modules": DEFAULT_MODULES + [FACTS], "owns": {"spec", "ser", "card", "toarr"}},
-    "C07": {"suites": [("alias", 1.0)], "modules": ["RProofs.Heap"],
+    "C06": {"suites": [("spec", 1.0)],
+            "theorems": ["RModel.FormatSpec.encode_conforms", "RModel.FormatSpec.conformant_decodes", "RModel.BSet.canon_ext"] + F_SERIAL,
+            "modules": DEFAULT_MODULES + [FACTS, "RProofs.Properties.C06"], "owns": {"spec", "ser", "card", "toarr"}},
+    # C07 also rides on the aggregate suites, where it owns "the operands and the caller's slice are left alone": a line whose
+    # result digest is right but whose operand digests / slice verdict differ (a wrong result is C11's)
+    "C07": {"suites": [("alias", 1.0), ("agg", 0.5)], "modules": ["RProofs.Heap"],
+            "owns_fn": lambda op, mm, suite: ("agg" not in suite) or (op in AGG_OPS | {"dig"} and
+            mm.get("expected", "").split(" ")[:1] == mm.get("got", "").split(" ")[:1] and not mm.get("got", "").startswith("panic")),
             "theorems": ["RModel.Impl.safe_nil", "RModel.Impl.safe_iff", "RModel.Impl.safe_unflagged_private",
                          "RModel.Impl.safe_gate", "RModel.Impl.safe_cloneBitmap", "RModel.Impl.safe_appendCopy",
                          "RModel.Impl.safe_appendFresh", "RModel.Impl.safe_insertFresh", "RModel.Impl.safe_removeSlot",
@@ -93,16 +99,18 @@ PROPS = {
     "C10": {"suites": [("fuzzdec", 1.0), ("fuzzfrozen", 0.5)], "corpus": ["corpus/C10/frozen-bitmap4096.txt"],
             "theorems": ["RModel.Impl.decode_no_panic", "RModel.Impl.prefix_rejected", "RModel.Impl.decode_shape",
                          "RModel.Impl.decoded_valid_is_wf", "RModel.Impl.validate_implies_wf_of_decoded",
-                         "RModel.BSet.canon_ext"] + F_SERIAL,
-            "modules": DEFAULT_MODULES + [FACTS, "RProofs.Properties.C09", "RProofs.Properties.C05"], "owns": None},
+                         "RModel.Impl.frozenView_no_panic", "RModel.BSet.canon_ext"] + F_SERIAL,
+            "modules": DEFAULT_MODULES + [FACTS, "RProofs.Properties.C09", "RProofs.Properties.C05", "RProofs.Properties.C13"], "owns": None},
     "C11": {"suites": [("agg", 1.0), ("kernspecial", 0.6)], "theorems": L1_AGG + L1_ALGEBRA, "modules": DEFAULT_MODULES + ["RProofs.Agg"], "owns": set(AGG_OPS) | {"kern"}},
     # C12: schedule independence / termination / no leak (sched), concurrent decoding through the pools (concdec); the
     # protocol theorems are about the transition systems of Impl/Par.lean, pinned to the source by the skeleton obligations
     "C12": {"suites": [("sched", 1.0)], "theorems": PAR + L1_AGG[:3],
             "modules": DEFAULT_MODULES + ["RProofs.Agg", "RProofs.Par", "RProofs.Facts.Skeleton"], "owns": {"sched", "concdec", "concagg"},
             "race_suites": [("sched", 1.0)]},
-    "C13": {"suites": [("frozen", 1.0), ("frozenmis", 0.5)], "corpus": ["corpus/C10/frozen-bitmap4096.txt"], "theorems": ["RModel.BSet.canon_ext", "RModel.Facts.frozenCookie_spec"],
-            "modules": DEFAULT_MODULES + [FACTS],
+    "C13": {"suites": [("frozen", 1.0), ("frozenmis", 0.5)], "corpus": ["corpus/C10/frozen-bitmap4096.txt"],
+            "theorems": ["RModel.Impl.freeze_length", "RModel.Impl.frozenView_freeze", "RModel.Impl.frozenView_no_panic",
+                         "RModel.FrozenSpec.frozenSpec_freeze", "RModel.BSet.canon_ext", "RModel.Facts.frozenCookie_spec"],
+            "modules": DEFAULT_MODULES + [FACTS, "RProofs.Properties.C13", "RProofs.Properties.C13Spec"],
             "owns": {"frz", "frzsmall", "frzwfail", "fview", "fdec", "fspec", "fchk", "fgc", "wf", "dig", "eq", "card", "toarr"}},
     "C14": {"suites": [("hist", 1.0), ("alg", 0.7), ("xform", 0.5), ("thresh", 0.5), ("sizeb", 1.0), ("agg", 0.5)],
             "theorems": ["RModel.Impl.readme_bound", "RModel.Impl.bound_function", "RModel.BSet.canon_ext"] + F_SERIAL,
